@@ -222,5 +222,110 @@ PROFILES = {
 }
 
 
+def gen_flood(seed: int, where: str) -> dict:
+    """C14: bursts that cross the 50-queued / 100-in-flight limits, from callers or from inside a handler."""
+    r = random.Random(seed * 7919 + 11)
+    nb = r.choice([1, 1, 2])
+    buses = [f'b{i}' for i in range(nb)]
+    hist = r.choice([50, 50, 1000, 5, None])
+    sc = {'v': 1, 'profile': 'flood_' + where, 'seed': seed, 'max_depth': 1, 'event_timeout': 300.0, 'faults': {},
+          'buses': [{'name': b, 'parallel': False, 'max_history': hist} for b in buses],
+          'bus_order': {'perm': list(range(nb)), 'rotate_every': 0}, 'handlers': [], 'callers': [], 'bounds': {'silence': 30.0}}
+    slow = r.choice([0.0, 0.001, 0.01, 0.05])
+    for b in buses:
+        sc['handlers'].append({'bus': b, 'pattern': 'E1', 'kind': r.choice(['async', 'async', 'sync']), 'prog': [['pause', slow]] if slow else []})
+        if r.random() < 0.3:
+            sc['handlers'].append({'bus': b, 'pattern': '*', 'kind': 'async', 'prog': []})
+    if where == 'handler':
+        n = r.choice([30, 49, 50, 51, 55, 60, 99, 101, 110])
+        tgt = r.choice(buses)
+        prog = []
+        for i in range(n):
+            prog.append(['dispatch', tgt if r.random() < 0.9 else r.choice(buses), 'E1', {}, f'v{i}'])
+            if r.random() < 0.03:
+                prog.append(['yield', 1])
+            if r.random() < 0.02:
+                prog.append(['await', f'v{r.randrange(i + 1)}'])
+        sc['handlers'].append({'bus': buses[0], 'pattern': 'E0', 'kind': 'async', 'prog': prog})
+        sc['callers'].append({'prog': [['dispatch_await' if r.random() < 0.7 else 'dispatch', buses[0], 'E0', {}, 'r0']]})
+        if r.random() < 0.4:
+            sc['callers'].append({'prog': [['pause', 0.001]] + [['dispatch', r.choice(buses), 'E1', {}, f'q{i}'] for i in range(r.choice([5, 20, 45]))]})
+    else:
+        for ci in range(r.choice([1, 1, 2])):
+            n = r.choice([40, 50, 51, 60, 99, 100, 101, 130])
+            prog = []
+            for i in range(n):
+                prog.append(['dispatch', r.choice(buses), 'E1', {}, f'r{i}'])
+                x = r.random()
+                if x < 0.03:
+                    prog.append(['pause', r.choice([0.0, 0.001, 0.05])])
+                elif x < 0.05:
+                    prog.append(['await', f'r{r.randrange(i + 1)}'])
+            sc['callers'].append({'prog': prog})
+    return sc
+
+
+def gen_stop(seed: int, k: int | None = None, kind: str | None = None) -> dict:
+    """C16: a small base run (idle / backlog / handler mid-flight / inline processing / another bus awaiting)
+    with stop(), run-loop cancel or cancel-all injected immediately before callback step k."""
+    r = random.Random(seed * 104729 + 5)
+    nb = r.choice([1, 1, 2])
+    buses = [f'b{i}' for i in range(nb)]
+    sc = {'v': 1, 'profile': 'stop', 'seed': seed, 'max_depth': 2, 'event_timeout': 300.0, 'no_final_idle': True,
+          'buses': [{'name': b, 'parallel': r.random() < 0.15, 'max_history': 50} for b in buses],
+          'bus_order': {'perm': r.sample(range(nb), nb), 'rotate_every': 0}, 'handlers': [], 'callers': []}
+    # victim bus b0: handlers that take time; some await own-bus children (inline processing)
+    for _ in range(r.choice([1, 2])):
+        prog = []
+        for _ in range(r.choice([0, 1, 2])):
+            x = r.random()
+            if x < 0.5:
+                prog.append(['pause', dur(r)])
+            elif x < 0.65:
+                prog.append(['yield', r.choice([1, 2])])
+            elif x < 0.85:
+                prog.append(['dispatch_await', 'b0', 'E2', {}, 'x'])
+            else:
+                prog.append(['raise', 'ValueError'])
+                break
+        sc['handlers'].append({'bus': 'b0', 'pattern': r.choice(['E0', 'E1', '*']), 'kind': r.choice(['async', 'async', 'sync']), 'prog': prog})
+    sc['handlers'].append({'bus': 'b0', 'pattern': 'E2', 'kind': 'async', 'prog': [['pause', dur(r)]] if r.random() < 0.5 else []})
+    if nb > 1:
+        # another bus whose handler awaits a child on the victim bus
+        sc['handlers'].append({'bus': 'b1', 'pattern': 'E3', 'kind': 'async',
+                               'prog': [['pause', dur(r)], ['dispatch_await', 'b0', r.choice(['E0', 'E1']), {}, 'c'], ['pause', dur(r)]]})
+    prog = []
+    for i in range(r.choice([0, 1, 2, 3, 5, 8])):
+        prog.append(['dispatch', 'b0', r.choice(['E0', 'E1']), {}, f'r{i}'])
+        if r.random() < 0.2:
+            prog.append(['pause', dur(r)])
+    if nb > 1 and r.random() < 0.7:
+        prog.insert(r.randrange(len(prog) + 1), ['dispatch', 'b1', 'E3', {}, 'q'])
+    if prog and r.random() < 0.3:
+        prog.append(['await', 'r0'])
+    prog.append(['pause', 1.5])
+    sc['callers'].append({'prog': prog})
+    kind = kind or r.choice(['stop', 'stop', 'stop', 'cancel_runloop', 'cancel_all'])
+    k = k if k is not None else r.randrange(1, 260)
+    if kind == 'stop':
+        act = ['stop', 'b0', r.choice([None, None, 0, 0.05, 0.3])]
+    elif kind == 'cancel_runloop':
+        act = ['cancel_runloop', 'b0']
+    else:
+        act = ['cancel_all']
+    sc['faults'] = {'at_step': [[k, act]]}
+    return sc
+
+
+PROFILES['stop'] = lambda seed: gen_stop(seed)
+# enumeration: 256 consecutive seeds place the fault before every callback step 1..256 of one base run
+PROFILES['stop_enum'] = lambda seed: dict(gen_stop(seed // 256, k=seed % 256 + 1), profile='stop_enum', seed=seed)
+PROFILES['flood_caller'] = lambda seed: gen_flood(seed, 'caller')
+PROFILES['flood_handler'] = lambda seed: gen_flood(seed, 'handler')
+
+
 def gen(profile: str, seed: int) -> dict:
-    return gen_bus(seed, PROFILES[profile], profile)
+    p = PROFILES[profile]
+    if callable(p):
+        return p(seed)
+    return gen_bus(seed, p, profile)
